@@ -137,10 +137,80 @@ def r_ledger(ctx, rid="C10.ledger"):
                 ctx.incomplete_msg(rid, "%s: %s" % (key, e))
 
 
+def r_reassign(ctx, rid="C10.reassign"):
+    ctx.rule(rid, "CBOR visit_value_member_key_entry: the pair a single (non-repeating) member picked first depends on the order of the "
+                  "encoded map, so when that pair's value fails the member must ask try_reassign_failed_single_entries for another "
+                  "one-to-one assignment before it keeps the error — whenever a claim was made and the validator is not itself probing, "
+                  "whatever the member looks like (cut or not, own occurrence or not); skipping the search makes the verdict depend on "
+                  "entry order (abstract evaluation with scripted key/value visitors)", floor=8)
+    f = ctx.facts
+    file, ty = vt.VIS["cbor"]
+    for own in (None, "Optional"):
+        for cut in (False, True):
+            for probing in (False, True):
+                for reassign_ok in (True, False):
+                    key = "own=%s|cut=%s|probing=%s|reassign %s" % (own, cut, probing, "succeeds" if reassign_ok else "fails")
+                    state = ("enum", "ValidationState", {"occurrence": ("None",), "data_location": ("str", "root"), "is_member_key": False,
+                                                         "advance_to_next_entry": False, "is_multi_type_choice": False, "is_multi_group_choice": False,
+                                                         "type_group_name_entry": ("None",), "generic_rules": MutList(), "eval_generic_rule": ("None",),
+                                                         "cddl": OPAQUE, "enabled_features": OPAQUE})
+                    selfo = ("enum", "Self", {"state": state, "errors": MutList(), "map_entry_candidates": ("None",), "object_value": ("None",),
+                                              "active_single_entry_claim": ("None",), "claimed_map_entries": MutList(), "single_entry_claims": MutList(),
+                                              "validated_keys": ("None",), "probing_single_entry_assignment": probing,
+                                              "cbor": ("enum", "Value::Map", [MutList([("tuple", [OPAQUE, OPAQUE]), ("tuple", [OPAQUE, OPAQUE])])])})
+                    entry = ("enum", "ValueMemberKeyEntry", {
+                        "occur": ("None",) if own is None else ("Some", ("enum", "Occurrence", {"occur": ("enum", "Occur::" + own, {})})),
+                        "member_key": ("Some", OPAQUE), "entry_type": OPAQUE})
+                    calls = []
+
+                    def visit_memberkey(run, it, node, recv, selfo=selfo):
+                        selfo[2]["object_value"] = ("Some", OPAQUE)
+                        selfo[2]["active_single_entry_claim"] = ("Some", 0)
+                        selfo[2]["single_entry_claims"].append(("enum", "SingleEntryClaim", {"entry": ("None",), "entry_index": 0}))
+                        selfo[2]["claimed_map_entries"].append(0)
+                        return ("Ok", ("tuple", []))
+
+                    def failing_child(*a):
+                        o = child_obj()
+                        o[2]["errors"].append(("str", "value mismatch"))
+                        return o
+
+                    def reassign(run, it, node, recv, calls=calls, reassign_ok=reassign_ok):
+                        calls.append("reassign")
+                        return ("Ok", reassign_ok)
+                    scripts = {"visit_memberkey": visit_memberkey, "visit_type": lambda r, it, node, recv: ("Ok", ("tuple", [])),
+                               "new_with_recursion_state": lambda r, it, node, recv: failing_child(),
+                               "CBORValidator::new": lambda r, it, node, a: failing_child(), "new": lambda r, it, node, a: failing_child(),
+                               "try_reassign_failed_single_entries": reassign,
+                               "current_generic_evaluation_context": lambda r, it, node, recv: OPAQUE,
+                               "member_key_has_cut": lambda r, it, node, a, cut=cut: cut,
+                               "remove_single_map_entry_claim": lambda r, it, node, recv: ("tuple", []),
+                               "validate_repeating_member_count": lambda r, it, node, recv: ("tuple", []),
+                               "repeating_member_upper_bound": lambda r, it, node, a: ("None",)}
+                    run = vt.ObjRun(f, file, ty, inline={"visit_occurrence"}, scripts=scripts)
+                    for fi2 in f.fns(file):
+                        if fi2.impl_self == ty and fi2.name in ("visit_occurrence", "visit_value_member_key_entry"):
+                            run.methods.setdefault(fi2.name, []).append(fi2)
+                    fi = run.fn("visit_value_member_key_entry")
+                    try:
+                        run.call("visit_value_member_key_entry", selfo, {"entry": entry})
+                    except absint.Unknown as e:
+                        ctx.incomplete_msg(rid, "%s: %s" % (key, e))
+                        continue
+                    ctx.site(rid, key, file, fi.line, {"reassign_calls": len(calls), "errors_left": len(selfo[2]["errors"]) + run.errors})
+                    want = 0 if probing else 1
+                    if len(calls) != want:
+                        ctx.violation(rid, "cut=%s|own=%s|probing=%s" % (cut, own, probing), file, fi.line,
+                                      "CBOR visit_value_member_key_entry (own occurrence %s, key %s a cut, %s): the first-picked pair's value fails and "
+                                      "try_reassign_failed_single_entries is called %d time(s), expected %d" % (own, "with" if cut else "without",
+                                                                                                             "probing" if probing else "not probing", len(calls), want))
+
+
 def run(ctx):
     ctx.guarded("C10.jsonorder", r_jsonorder)
     ctx.guarded("C10.ledger", r_ledger)
     ctx.guarded("C10.occreset", r_occreset)
+    ctx.guarded("C10.reassign", r_reassign)
 
 
 def child_obj():
